@@ -211,6 +211,19 @@ Section AdjointProofs.
     now rewrite (H j Hj).
   Qed.
 
+  (* the residual source tested against any field z *)
+  Lemma rsource_dot r z :
+    dotE (rsource r) z = - sum (filter fin Dt) (fun j => w j * (conj (r j) * P z j)).
+  Proof.
+    rewrite dotE_comm.
+    transitivity (dotE z (PT (fun j => if fin j then - (conj (r j) * w j) else 0))).
+    { unfold Adjoint.dotE. apply sum_ext. intros i _. f_equal.
+      rewrite rsource_eq. unfold Adjoint.PT. rewrite <- (sum_opp Fth).
+      apply sum_ext. intros j _. destruct (fin j); ring. }
+    rewrite <- P_PT. unfold Adjoint.dotD. rewrite (sum_filter Fth), <- (sum_opp Fth).
+    apply sum_ext. intros j _. destruct (fin j); ring.
+  Qed.
+
   (* ---------------------------------------------------------------------- *)
   (* C07: the exact expansion of the misfit                                   *)
   Section Expansion.
@@ -243,15 +256,7 @@ Section AdjointProofs.
       sum (filter fin Dt) (fun j => w j * (conj (r j) * P De j))
       = dotE b (fun i => s * Av delta i * e' i).
     Proof.
-      assert (H : dotE (rsource r) De
-                  = - sum (filter fin Dt) (fun j => w j * (conj (r j) * P De j))).
-      { rewrite dotE_comm.
-        transitivity (dotE De (PT (fun j => if fin j then - (conj (r j) * w j) else 0))).
-        { unfold Adjoint.dotE. apply sum_ext. intros i _. f_equal.
-          rewrite rsource_eq. unfold Adjoint.PT. rewrite <- (sum_opp Fth).
-          apply sum_ext. intros j _. destruct (fin j); ring. }
-        rewrite <- P_PT. unfold Adjoint.dotD. rewrite (sum_filter Fth), <- (sum_opp Fth).
-        apply sum_ext. intros j _. destruct (fin j); ring. }
+      pose proof (rsource_dot r De) as H.
       rewrite adjoint_identity in H.
       transitivity (- - sum (filter fin Dt) (fun j => w j * (conj (r j) * P De j))); [ring|].
       rewrite <- H. ring.
@@ -302,4 +307,126 @@ Section AdjointProofs.
       rewrite Hg. unfold De. field. exact two_nz.
     Qed.
   End Expansion.
+
+  (* sum over source-frequency pairs: expansions add up *)
+  Lemma expansion_sum {X} (Xs : list X) (phi phi' Q : X -> K) (g : X -> IC -> K)
+        (delta : IC -> K) :
+    (forall x, In x Xs -> phi' x - phi x = dotC (g x) delta + Q x) ->
+    sum Xs phi' - sum Xs phi
+    = dotC (fun k => sum Xs (fun x => g x k)) delta + sum Xs Q.
+  Proof.
+    intros H. rewrite <- (sum_sub Fth).
+    rewrite (sum_ext Xs _ (fun x => dotC (g x) delta + Q x) H).
+    rewrite (sum_add Fth). f_equal.
+    unfold Adjoint.dotC. rewrite (sum_exchange Fth). apply sum_ext. intros k _.
+    apply (sum_scale_r Fth).
+  Qed.
+
+  (* ---------------------------------------------------------------------- *)
+  (* C08                                                                      *)
+  Section Sensitivity.
+    Variable V : (IM -> K) -> IC -> K.
+    Variable VT : (IC -> K) -> IM -> K.
+    Variable c : IM -> K.
+    Notation jsource := (jsource Av s).
+    Notation jvec_dsig := (jvec_dsig V c).
+    Notation jt_residual := (jt_residual w).
+    Notation jtvec_of := (jtvec_of conj AvT s VT c).
+
+    (* J delta is the derivative of the data: exact form *)
+    Section Derivative.
+      Variables (sig delta : IC -> K) (f e e' u rho : IE -> K).
+      Hypothesis K0_sub : forall a b i, K0 (fun k => a k - b k) i = K0 a i - K0 b i.
+      Hypothesis A_inj : forall z, (forall i, In i E -> Aop sig z i = 0) ->
+                                   forall i, In i E -> z i = 0.
+      Hypothesis He : forall i, In i E -> Aop sig e i = f i.
+      Hypothesis He' : forall i, In i E -> Aop (fun k => sig k + delta k) e' i = f i.
+      Hypothesis Hu : forall i, In i E -> Aop sig u i = jsource e delta i.
+      Hypothesis Hrho : forall i, In i E ->
+                          Aop sig rho i = jsource (fun k => e' k - e k) delta i.
+
+      Lemma field_difference i : In i E -> e' i - e i = u i + rho i.
+      Proof.
+        intros Hi.
+        assert (Z : e' i - e i - u i - rho i = 0).
+        { apply (A_inj (fun k => e' k - e k - u k - rho k)); [|exact Hi]. intros k Hk.
+          pose proof (He k Hk) as A1. pose proof (He' k Hk) as A2.
+          pose proof (Hu k Hk) as A3. pose proof (Hrho k Hk) as A4.
+          unfold Adjoint.Aop, Adjoint.jsource in *. rewrite Av_add in A2.
+          rewrite !K0_sub.
+          replace (K0 e' k) with (f k - s * (Av sig k + Av delta k) * e' k)
+            by (rewrite <- A2; ring).
+          replace (K0 e k) with (f k - s * Av sig k * e k) by (rewrite <- A1; ring).
+          replace (K0 u k) with (- s * (e k * Av delta k) - s * Av sig k * u k)
+            by (rewrite <- A3; ring).
+          replace (K0 rho k) with (- s * ((e' k - e k) * Av delta k) - s * Av sig k * rho k)
+            by (rewrite <- A4; ring).
+          ring. }
+        transitivity (e' i - e i - u i - rho i + (u i + rho i)); [ring|].
+        rewrite Z. ring.
+      Qed.
+
+      Theorem jvec_derivative j : P e' j - P e j = P u j + P rho j.
+      Proof.
+        rewrite <- P_sub, <- P_add. unfold Adjoint.P. apply sum_ext. intros i Hi.
+        now rewrite (field_difference i Hi).
+      Qed.
+    End Derivative.
+
+    (* J^T is the exact adjoint of J, for EVERY pair V / VT of transposes
+       (identity, volume averaging to any computational grid, ...) *)
+    Section Adjointness.
+      Variables (sig : IC -> K) (e u b : IE -> K) (v : IM -> K) (y : ID -> K).
+      Hypothesis V_T : forall a x, dotC (V a) x = dotM a (VT x).
+      Hypothesis V_real : forall a, (forall m, conj (a m) = a m) ->
+                                    forall k, conj (V a k) = V a k.
+      Hypothesis c_real : forall m, conj (c m) = c m.
+      Hypothesis v_real : forall m, conj (v m) = v m.
+      Hypothesis w_nz : forall j, fin j = true -> w j <> 0.
+      Hypothesis Hu : forall i, In i E -> Aop sig u i = jsource e (jvec_dsig v) i.
+      Hypothesis Hb : forall i, In i E -> Aop sig b i = rsource (jt_residual y) i.
+
+      Theorem jt_adjoint_eq :
+        re (sum (filter fin Dt) (fun j => conj (y j) * P u j)) = dotM (jtvec_of e b) v.
+      Proof.
+        set (ds := jvec_dsig v).
+        assert (ds_real : forall k, conj (ds k) = ds k).
+        { unfold ds, Adjoint.jvec_dsig. apply V_real. intros m.
+          now rewrite conj_mul, c_real, v_real. }
+        (* right-hand side down to the edges *)
+        assert (R1 : dotM (jtvec_of e b) v = dotE (Av ds) (gfield e b)).
+        { rewrite Av_T.
+          transitivity (dotM (fun m => c m * v m) (VT (grad e b))).
+          { unfold Adjoint.dotM, Adjoint.jtvec_of. apply sum_ext. intros. ring. }
+          rewrite <- V_T. reflexivity. }
+        assert (R2 : dotE (Av ds) (gfield e b) = - re (dotE b (jsource e ds))).
+        { unfold Adjoint.dotE. rewrite <- re_opp, <- (sum_opp Fth), re_sum.
+          apply sum_ext. intros i _. unfold Adjoint.gfield, Adjoint.jsource.
+          rewrite <- (re_mul_real (Av ds i)) by (now apply Av_real).
+          f_equal. ring. }
+        assert (R3 : dotE b (jsource e ds) = dotE (rsource (jt_residual y)) u).
+        { transitivity (dotE b (Aop sig u)).
+          { unfold Adjoint.dotE. apply sum_ext. intros i Hi. now rewrite (Hu i Hi). }
+          rewrite <- Aop_sym. unfold Adjoint.dotE. apply sum_ext. intros i Hi.
+          now rewrite (Hb i Hi). }
+        rewrite R1, R2, R3, rsource_dot, <- re_opp. f_equal.
+        transitivity (sum (filter fin Dt)
+                        (fun j => w j * (conj (jt_residual y j) * P u j))); [|ring].
+        apply sum_ext. intros j Hj. apply filter_In in Hj. destruct Hj as [_ Hj].
+        unfold Adjoint.jt_residual. rewrite conj_div by (now apply w_nz).
+        rewrite w_real. field. now apply w_nz.
+      Qed.
+    End Adjointness.
+
+    (* jtvec of the weighted residual solves the same adjoint problem as the
+       gradient: same residual source, hence same back-propagated field and
+       the same result *)
+    Theorem jtvec_weighted_residual_source r i :
+      (forall j, fin j = true -> w j <> 0) ->
+      rsource (jt_residual (fun j => r j * w j)) i = rsource r i.
+    Proof.
+      intros w_nz. apply rsource_ignores_nan. intros j Hj.
+      unfold Adjoint.jt_residual. field. now apply w_nz.
+    Qed.
+  End Sensitivity.
 End AdjointProofs.
